@@ -32,6 +32,14 @@ var managedRefs = []string{policyRef, stagingRef, attRef}
 // key 0: root + primary rule file; keys 1..: developers; high keys: outsiders.
 
 // simplePolicy: root key 0 signs everything; main protected by devs with threshold.
+func init() {
+	// every case starts with an empty process-wide RSL cache, like a fresh gittuf process
+	core.BeforeCase = func() func() {
+		old := rsl.VerifSwapCache(rsl.VerifNewCache())
+		return func() { rsl.VerifSwapCache(old) }
+	}
+}
+
 func simplePolicy(devs []int, threshold int) *world.PolicySpec {
 	ps := []world.PrincipalSpec{}
 	ids := []string{}
